@@ -170,6 +170,7 @@ def main(argv):
         seen.add(key)
         os.makedirs(rdir, exist_ok=True)
         path = os.path.join(rdir, '%s_%d.json' % (pid, len(seen)))
+        v = dict(v, property=pid)
         with open(path, 'w') as f:
             json.dump(v, f, indent=1, default=str)
         print('VIOLATION property=%s replay=%s' % (pid, path))
@@ -209,7 +210,8 @@ def generic_replay(path):
         print('  ', f)
     if status == 'failed':
         print('VIOLATION property=%s replay=%s' % (
-            os.path.basename(path).split('_')[0], path))
+            v.get('property') or os.path.basename(path).split('_')[0].upper(),
+            path))
         return 1
     return 0
 
